@@ -762,7 +762,9 @@ def mkPair (id stratum : String) (da db : V) (srcA srcB ctx : String) (kfs : Lis
       model := modelObs da db flags hasCtx, spec := specObs da db flags hasCtx,
       payload := [srcA, srcB, if hasCtx then ctx else "", flags] }
   if superimposed da || superimposed db then [mk id "KF-superimposed" (if pos then "eqscdrlgfF" else "eqscd")]
-  else if bytesHoles da || bytesHoles db then [mk id "KF-bytes-holes" (if pos then "eqscdfF" else "eqscd")]
+  else if bytesHoles da || bytesHoles db || kfs.contains "KF-bytes-holes" then
+    -- also: an element-by-element construction visits the byte pairs in an order that leaves a gap on the way
+    [mk id "KF-bytes-holes" (if pos then "eqscdfF" else "eqscd")]
   else
     -- the classes of C01/C05/C06 findings (string `with` fallback, duplicated string member, Less panics and
     -- inconsistencies) were dropped when their repairs were merged: `kfs` is no longer consulted
@@ -900,7 +902,7 @@ end Trans
 
 open Trans in
 /-- one transition case; `i` selects the family so that every family and count transition is hit on every run -/
-def genTransition (i : Nat) : Gen (String × V × String × String) := do
+def genTransition (i : Nat) : Gen (String × V × String × String × List String) := do
   let fam := i % 12
   let op := i / 36   -- cycles through the removal operators per family and count transition
   if fam < 4 then
@@ -928,16 +930,16 @@ def genTransition (i : Nat) : Gen (String × V × String × String) := do
       let src := "(" ++ s ++ " => (@: .@, @value: .@value % 10))"
       let res' : DState := if n == 1 then [(k, [((toString (numOf v.2)), v.2)])] ++ others else (k, kvals.drop 1) :: others
       -- with n = 1 the only value is `extra`, which maps to `w` = `v`
-      pure (src, denD res', ← canonLit res', "dict/remap")
+      pure (src, denD res', ← canonLit res', "dict/remap", [])
     else if fam == 2 && n ≥ 2 then
       -- two removals in a row (3 → 1, 2 → 0)
       let v2 := kvals.getD 1 v
       let s1 ← removal op sup k v
       let res2 := removeEntry res k v2
       let src := "(" ++ s1 ++ " without " ++ tupSrc (k, v2) ++ ")"
-      pure (src, denD res2, ← canonLit res2, s!"dict/{n}to{n - 2}")
+      pure (src, denD res2, ← canonLit res2, s!"dict/{n}to{n - 2}", [])
     else
-      pure (← removal op sup k v, denD res, ← canonLit res, s!"dict/{n}to{n - 1}")
+      pure (← removal op sup k v, denD res, ← canonLit res, s!"dict/{n}to{n - 1}", [])
   else if fam < 6 then
     -- relations: rows and columns go away
     let cols ← pick [["a"], ["a", "b"], ["a", "b", "c"]]
@@ -966,7 +968,7 @@ def genTransition (i : Nat) : Gen (String × V × String × String) := do
         | 1 => pure ("(" ++ s ++ " &~ {" ++ tupRow gone ++ "})")
         | _ => pure ("((" ++ s ++ " | {" ++ tupRow extraRow ++ "}) &~ {" ++ tupRow gone ++ ", " ++ tupRow extraRow ++ "})")
       let restDistinct := rest.filter (fun r => rowSrc r != rowSrc gone)
-      pure (src, denR cols restDistinct, ← lit restDistinct.eraseDups, s!"rel/rows{nrows}to{nrows - 1}")
+      pure (src, denR cols restDistinct, ← lit restDistinct.eraseDups, s!"rel/rows{nrows}to{nrows - 1}", [])
     else
       -- project to the first column (rows may merge)
       let s ← lit rows
@@ -974,7 +976,7 @@ def genTransition (i : Nat) : Gen (String × V × String × String) := do
       let proj := (rows.map (fun r => r.take 1)).eraseDups
       let shp ← shuffle proj
       let litp := "{|a| " ++ ", ".intercalate (shp.map (fun r => "(" ++ ", ".intercalate (r.map (·.1)) ++ ")")) ++ "}"
-      pure (src, denR ["a"] proj, litp, s!"rel/cols{cols.length}to1")
+      pure (src, denR ["a"] proj, litp, s!"rel/cols{cols.length}to1", [])
   else if fam < 8 then
     -- union sets: two buckets, all members of one of them go away
     let bucketsAll : List (List Atom × String) :=
@@ -996,7 +998,7 @@ def genTransition (i : Nat) : Gen (String × V × String × String) := do
       | 0 => pure (drop.1.foldl (fun acc m => "(" ++ acc ++ " without " ++ m.1 ++ ")") u)
       | 1 => pure ("(" ++ u ++ " &~ {" ++ ", ".intercalate (drop.1.map (·.1)) ++ "})")
       | _ => pure ("((" ++ keep.2 ++ " | " ++ drop.2 ++ ") &~ " ++ drop.2 ++ ")")
-    pure (src, V.mkSet (keep.1.map (·.2)), keep.2, "union/2to1")
+    pure (src, V.mkSet (keep.1.map (·.2)), keep.2, "union/2to1", [])
   else if fam < 10 then
     -- joins and compositions that end in a sugared heading `{@, @char|@item|@value|@byte}`: the value column from the
     -- left operand and from the right operand, every operator, compared with the string/array/dict/bytes literal
@@ -1040,6 +1042,24 @@ def genTransition (i : Nat) : Gen (String × V × String × String) := do
     let rx := rows.zip xs
     let rel (cols : String) (rs : List String) : Gen String := do
       pure ("{|" ++ cols ++ "| " ++ ", ".intercalate (← shuffle rs) ++ "}")
+    -- the `{|@| …}` operand of the semi-joins drives an element-by-element construction (`with`) of the result: a byte
+    -- array cannot have holes, so an order that leaves a gap on the way ends in a generic set (KF-bytes-holes)
+    let atRows ← shuffle rows
+    let atRel := "{|@| " ++ ", ".intercalate (atRows.map (fun r => "(" ++ r.1.1 ++ ")")) ++ "}"
+    let gapOrder : Bool := Id.run do
+      let idx := atRows.map (fun r => numOf r.1.2)
+      match idx with
+      | [] => return false
+      | i0 :: rest =>
+        let mut lo := i0
+        let mut hi := i0
+        let mut gap := false
+        for k in rest do
+          if k == hi + 1 then hi := k
+          else if k == lo - 1 then lo := k
+          else gap := true
+        return gap
+    let kf : List String := if name == "@byte" && (variant == 4 || variant == 5) && gapOrder then ["KF-bytes-holes"] else []
     let src ← match variant with
       | 0 => do pure ((← rel (name ++ ", x") (rx.map (fun p => "(" ++ p.1.2.1 ++ ", " ++ p.2 ++ ")"))) ++ " <-> " ++
                       (← rel "@, x" (rx.map (fun p => "(" ++ p.1.1.1 ++ ", " ++ p.2 ++ ")"))))
@@ -1057,17 +1077,17 @@ def genTransition (i : Nat) : Gen (String × V × String × String) := do
         else
           pure ((← rel "x, @" (rx.map (fun p => "(" ++ p.2 ++ ", " ++ p.1.1.1 ++ ")"))) ++ " <-> " ++
                 (← rel ("x, " ++ name) (rx.map (fun p => "(" ++ p.2 ++ ", " ++ p.1.2.1 ++ ")"))))
-      | 4 => do pure ((← rel "@" (rows.map (fun r => "(" ++ r.1.1 ++ ")"))) ++ " -&> " ++
+      | 4 => do pure (atRel ++ " -&> " ++
                       (← rel ("@, " ++ name) (("(" ++ extraAt ++ ", " ++ filler ++ ")") :: rows.map (fun r => "(" ++ r.1.1 ++ ", " ++ r.2.1 ++ ")"))))
       | 5 => do pure ((← rel (name ++ ", @") (("(" ++ filler ++ ", " ++ extraAt ++ ")") :: rows.map (fun r => "(" ++ r.2.1 ++ ", " ++ r.1.1 ++ ")"))) ++
-                      " <&- " ++ (← rel "@" (rows.map (fun r => "(" ++ r.1.1 ++ ")"))))
+                      " <&- " ++ atRel)
       | 6 => do pure ((← rel "x" (xs.map (fun x => "(" ++ x ++ ")"))) ++ " --> " ++
                       (← rel ("x, @, " ++ name) (("(99, " ++ extraAt ++ ", " ++ filler ++ ")") ::
                         rx.map (fun p => "(" ++ p.2 ++ ", " ++ p.1.1.1 ++ ", " ++ p.1.2.1 ++ ")"))))
       | _ => do pure ((← rel (name ++ ", x, @") (("(" ++ filler ++ ", 99, " ++ extraAt ++ ")") ::
                         rx.map (fun p => "(" ++ p.1.2.1 ++ ", " ++ p.2 ++ ", " ++ p.1.1.1 ++ ")"))) ++ " <-- " ++
                       (← rel "x" (xs.map (fun x => "(" ++ x ++ ")"))))
-    pure ("(" ++ src ++ ")", v, lit, "join/" ++ name ++ "/" ++ toString variant)
+    pure ("(" ++ src ++ ")", v, lit, "join/" ++ name ++ "/" ++ toString variant, kf)
   else
     -- shrinking to a special canonical form: `true`, `false`, a one-member string / array / byte array / dictionary /
     -- relation / generic set, from a larger generic or union set by `&~ & ~~ where without =>`
@@ -1107,7 +1127,7 @@ def genTransition (i : Nat) : Gen (String × V × String × String) := do
         match ms with
         | [m] => pure ("(" ++ (← setOf (if same && generic then ["1", "2"] else extras)) ++ " => " ++ m ++ ")")
         | _ => pure ("((" ++ sup ++ " &~ " ++ sup ++ ") => 1)")
-    pure (src, V.mkSet (tgt.2.map (·.2)), tgt.1, "shrink/" ++ tgt.1 ++ "/" ++ toString opi)
+    pure (src, V.mkSet (tgt.2.map (·.2)), tgt.1, "shrink/" ++ tgt.1 ++ "/" ++ toString opi, [])
 
 /-- witnesses of the repaired defects and minimised past failures; always run first -/
 def corpus : List Case :=
@@ -1182,9 +1202,9 @@ def gen (seed n : Nat) (thorough : Bool) : List Case := Id.run do
   let mut out := corpus.reverse
   -- transitions: every family and count transition on every run
   for i in [0:(if thorough then 1920 else 240)] do
-    let ((a, v, b, stratum), _) := (genTransition i).run (seedOf seed (900000 + i))
+    let ((a, v, b, stratum, kf), _) := (genTransition i).run (seedOf seed (900000 + i))
     let (ctx, _) := (genCtx v).run (seedOf seed (950000 + i))
-    let cs := mkPair s!"C02-t{i}" ("trans/" ++ stratum) v v a b ctx []
+    let cs := mkPair s!"C02-t{i}" ("trans/" ++ stratum) v v a b ctx kf
     out := cs.reverse ++ out
   for i in [0:n] do
     let (cs, _) := (genCase i thorough).run (seedOf seed (200000 + i))
